@@ -517,24 +517,23 @@ func (p *Prog) liftHigherOrder() {
 	var cands []hp
 	// touchesSync: the function, or anything it calls (the function-valued parameters aside), starts a goroutine or
 	// calls into package sync — the calls it makes through its parameter must then keep their place inside it
-	memo := map[*ssa.Function]int{}
-	var touchesSync func(f *ssa.Function, depth int) bool
-	touchesSync = func(f *ssa.Function, depth int) bool {
-		switch memo[f] {
-		case 1:
-			return true
-		case 2, 3:
-			return false
+	// computed as a least fixed point over the package's call edges (a depth-first walk with a memo gives answers that
+	// depend on the order of the walk when functions call each other in a cycle)
+	direct := map[*ssa.Function]bool{}
+	edges := map[*ssa.Function][]*ssa.Function{}
+	var all []*ssa.Function
+	seenFn := map[*ssa.Function]bool{}
+	var collect func(f *ssa.Function)
+	collect = func(f *ssa.Function) {
+		if f == nil || seenFn[f] {
+			return
 		}
-		if depth > 12 {
-			return true
-		}
-		memo[f] = 3
-		r := false
+		seenFn[f] = true
+		all = append(all, f)
 		for _, in := range instrsOf(f) {
 			switch x := in.(type) {
 			case *ssa.Go:
-				r = true
+				direct[f] = true
 			case ssa.CallInstruction:
 				if _, isParam := x.Common().Value.(*ssa.Parameter); isParam {
 					continue
@@ -547,22 +546,38 @@ func (p *Prog) liftHigherOrder() {
 				}
 				for _, g := range cal {
 					if g.Pkg != nil && g.Pkg.Pkg.Path() == "sync" {
-						r = true
+						direct[f] = true
 					} else if g.Pkg == p.SPkg || fnInPkg(g, p.SPkg) {
-						if touchesSync(g, depth+1) {
-							r = true
-						}
+						edges[f] = append(edges[f], g)
+						collect(g)
 					}
 				}
 			}
 		}
-		if r {
-			memo[f] = 1
-		} else {
-			memo[f] = 2
-		}
-		return r
 	}
+	for _, h := range p.srcFuncs {
+		collect(h)
+	}
+	touches := map[*ssa.Function]bool{}
+	for f := range direct {
+		touches[f] = true
+	}
+	for changed := true; changed; {
+		changed = false
+		for _, f := range all {
+			if touches[f] {
+				continue
+			}
+			for _, g := range edges[f] {
+				if touches[g] {
+					touches[f] = true
+					changed = true
+					break
+				}
+			}
+		}
+	}
+	touchesSync := func(f *ssa.Function, depth int) bool { return touches[f] }
 	for _, h := range p.srcFuncs {
 		if h.Blocks == nil {
 			continue
